@@ -64,6 +64,8 @@ type Config struct {
 	// NoSameNameInit: never read a name inside the initialiser of a local statement (or for bounds)
 	// that declares the same name
 	NoSameNameInit bool
+	// BlockReturn: any block (not only function bodies) may end in `return [explist] [;]`
+	BlockReturn bool
 }
 
 func DefaultConfig() Config {
@@ -257,7 +259,7 @@ func (g *Gen) block(depth int, allowReturn bool) {
 			g.emit(";")
 		}
 	}
-	if allowReturn && g.intn(3, "ret") == 0 {
+	if (allowReturn && g.intn(3, "ret") == 0) || (!allowReturn && g.cfg.BlockReturn && !noBreak && g.intn(6, "bret") == 0) {
 		g.newline()
 		g.emit("return")
 		k := g.intn(3, "retN")
@@ -266,6 +268,9 @@ func (g *Gen) block(depth int, allowReturn bool) {
 				g.emit(",")
 			}
 			g.exp(1)
+		}
+		if g.cfg.BlockReturn && g.intn(5, "retSemi") == 0 {
+			g.emit(";")
 		}
 	} else if g.inLoop() && depth > 0 && !noBreak && g.intn(8, "brk") == 0 {
 		g.newline()
